@@ -49,8 +49,8 @@ EVIDENCE = {
                     "types) round-trip through the real message codec; AVP pairs/triples through the record walker."),
         level_note=COMMON_NOTE + " Control messages with 2+ AVPs through the real control codec in one query are out of reach (DESIGN.md §2 P11/P21); they are covered record-wise (sequences) plus the 0/1-AVP message harnesses.",
         functions_encoded=LEAF_FUNCS + ["Message::write", "ControlMessage::write", "ControlMessage::try_read", "Message::try_read_validate"], stubs=[STUB_UTF8],
-        bounds="39 kinds x sizes {fixed L; 1,4 (9) octets byte strings; 1,4 (6) strings; Result Code 2,4,5,8; Q.931 3,4,7}; control messages with 0/1 AVP; sequences of 2-3 AVPs",
-        outside_claim=["control messages with 2+ AVPs in one query", "payload sizes not enumerated (250/506/1017 not run)", "hidden AVPs are covered under C11"],
+        bounds="38 kinds x sizes {fixed L; 4 (1,9) octets byte strings; 4 (1,6) strings; Q.931 3,7 (4)}; Result Code via c16_* (code, error type); control messages with 0/1 AVP; sequences of 2-3 AVPs",
+        outside_claim=["control messages with 2+ AVPs in one query", "AVPs of 256+ octets through encode then decode (arrays beyond CBMC field sensitivity; the 10-bit length split is decided under C07)", "Result Code with a message text on the encode side (the enum dispatch of that niche-carrying kind needs > 30 GB)", "hidden AVPs are covered under C11"],
         assumptions=["from_spec (kani/src/kinds.rs) builds the value the specification denotes — itself checked by same() in each harness"]),
     "C04": dict(
         level_text=("Data messages of every enumerated shape (payload 1,2,5,8 octets; Ns/Nr present or not; Length absent or the true total; "
@@ -100,7 +100,7 @@ EVIDENCE = {
                     "surplus octets and non-zero reserved octets are included): decode, re-encode, decode, re-encode — same value, same octets, never "
                     "longer. Message level: zero-AVP control messages directly; one-AVP messages by decode = specified value and encode(value) = specified octets."),
         level_note=COMMON_NOTE + " Decoded values live in a heap Vec whose shape is not constant in symbolic execution; the second round therefore runs on a local value shown (field-wise) to denote the same specified value.",
-        functions_encoded=LEAF_FUNCS + ["ControlMessage::try_read/write"], stubs=[STUB_UTF8], bounds="as C05 leaf lengths", outside_claim=["messages with 2+ AVPs", "data messages (covered by C04 round trip only)"], assumptions=[]),
+        functions_encoded=LEAF_FUNCS + ["ControlMessage::try_read/write"], stubs=[STUB_UTF8], bounds="as C05 leaf lengths", outside_claim=["messages with 2+ AVPs", "data messages (covered by C04 round trip only)", "Result Code (no re-encode harness)"], assumptions=[]),
     "C11": dict(
         level_text=("hide then reveal with the hash an uninterpreted function: for representative kinds, secret lengths 0/1/3/16, one to three "
                     "blocks (aligned and unaligned), all value / secret / random-vector / padding octets symbolic, the solver decides "
